@@ -308,7 +308,7 @@ class Check(common.Check):
     LEAN_DIRS = ['Sc3Verif/C06']
     THEOREMS = []          # filled below
     N_QUICK = 2000
-    N_THOROUGH = 40000
+    N_THOROUGH = 24000
     ASSUMPTIONS = [
         "struct.pack('>f') (double -> single conversion) is trusted; a float argument is modelled by its 32-bit pattern",
         "str.encode('utf-8') / bytes.decode('utf-8') are trusted; the model carries text as UTF-8 bytes with an executable validity check compared against CPython on every run",
@@ -317,6 +317,11 @@ class Check(common.Check):
         "size prediction is claimed for ASCII addresses (the library encodes the address with 'ascii' when sizing)",
         "MIDI 4-tuples are outside the property's value domain; their bytes are masked with & 0xFF as python-osc documents",
     ]
+
+    def __init__(self, tier, seed):
+        super().__init__(tier, seed)
+        if tier == 'thorough':
+            self.SEARCH_FACTOR = 1          # keeps a broken-tie run of the thorough tier within bounds
 
     # ---- translator tie: constants of netaddr.py -------------------------------------------------
     def regen(self):
@@ -578,9 +583,9 @@ class Check(common.Check):
         r = rng.random()
         # nested bundle elements of clump/send cases: a sub-time that stays legal under the outer time
         self.SUBT = rng.choice([None, 0, jf(0.5), 3])
-        if r < 0.50:
+        if r < 0.46:
             return {'k': 'msg', 'send': self.g_send(rng), 'off': self.g_off(rng), 'args': self.g_msg(rng)}
-        if r < 0.80:
+        if r < 0.74:
             return {'k': 'bndl', 'send': self.g_send(rng), 'off': self.g_off(rng), 'args': self.g_bundle(rng)}
         if r < 0.84:
             return {'k': 'dec', 'hex': self.g_dgram(rng)}
@@ -615,6 +620,19 @@ class Check(common.Check):
         r = rng.random()
         if d.startswith(b'#') and not self.BUNDLE_DAMAGE:
             r = 1.0
+        if rng.random() < 0.18:                       # size fields: negative, zero, oversized, off by one
+            sz = rng.choice([-1, -4, -16, -2 ** 31, -2 ** 31 + 3, 2 ** 31 - 1, 2 ** 20, 0, 1, 2, 3, 5, 9, 12, 13, 16])
+            body = rng.choice([b'abcd', b'\x01\x02\x03\x00', b'', b'abcdefgh\x00\x00\x00\x00', b'/x\x00\x00,\x00\x00\x00'])
+            if rng.random() < 0.5:                    # blob size
+                d = b'/abc\x00\x00\x00\x00' + rng.choice([b',b\x00\x00', b',bi\x00', b',ib\x00\x00\x00\x00\x07'][:2]) \
+                    + struct.pack('>i', sz) + body
+                if rng.random() < 0.3:
+                    d = b'#bundle\x00' + struct.pack('>Q', 1) + struct.pack('>i', len(d)) + d
+            else:                                     # bundle element size
+                d = b'#bundle\x00' + struct.pack('>Q', rng.choice([1, 7])) + struct.pack('>i', sz) + body
+                if rng.random() < 0.4:
+                    d += struct.pack('>i', 8) + b'/y\x00\x00,\x00\x00\x00'
+            return d.hex()
         if r < 0.3 and d:
             d = d[:rng.randrange(len(d) + 1)]
         elif r < 0.5 and d:
